@@ -256,6 +256,13 @@ def h_segmented_dispatch():
         line = LS([(Real("lx0"), Real("ly0")), (Real("lx1"), Real("ly1"))])
         poly = G("Polygon", exterior=LR(ring), interiors=[LR(hole)])
         coll = GC([pt, line, MP([poly])])
+        # what shapely would report for the whole collection: not empty, some bounding box --
+        # whose size relative to the resolution must not matter (an edge inside a box no wider
+        # than the resolution can still be longer than it: the diagonal)
+        coll.is_empty = False
+        bx0, by0, bw, bh = Real("bounds_x0"), Real("bounds_y0"), Real("bounds_w"), Real("bounds_h")
+        assume(And(bw >= 0, bh >= 0))
+        coll.bounds = (bx0, by0, bx0 + bw, by0 + bh)
         g = Geometry.__new__(Geometry)
         g.geom, g.crs = coll, None
         out = g.segmented(r)
@@ -281,10 +288,13 @@ def _segmented_concrete():
 
     from odc.geo.geom import Geometry
 
-    r = max(min(abs(Real("resolution")), 10.0), 0.05)
+    r0 = abs(Real("resolution"))
+    r = max(min(r0, 10.0), 0.05)
     Real("px"), Real("py"), Real("lx0"), Real("ly0"), Real("lx1"), Real("ly1")
+    if max(Real("bounds_w"), Real("bounds_h")) <= r0:
+        r = 12.0  # the model's geometry fits a resolution-sized box: so does this one (10 x 10), its diagonal line does not
     poly = sg.Polygon([(0, 0), (10, 0), (10, 10), (0, 10), (0, 0)], [[(2, 2), (8, 2), (8, 8), (2, 8), (2, 2)]])
-    coll = sg.GeometryCollection([sg.Point(1, 1), sg.LineString([(0, 0), (7, 3)]), sg.MultiPolygon([poly])])
+    coll = sg.GeometryCollection([sg.Point(1, 1), sg.LineString([(0, 0), (10, 10)]), sg.MultiPolygon([poly])])
     out = Geometry(coll, None).segmented(r).geom
 
     def edges_ok(coords):
@@ -307,7 +317,8 @@ def setup_tocrs():
     c01.setup()
 
 
-def h_to_crs(resmode):
+def h_to_crs(resmode, wrap=False):
+    import odc.geo.geom as geom_mod
     from odc.geo.geom import Geometry
 
     from . import c01
@@ -335,14 +346,23 @@ def h_to_crs(resmode):
             o.geom, o.crs = c01.Shape("projected"), crs
             return o
 
-        saved = (Geometry.segmented, Geometry._to_crs)
+        chop_calls = []
+
+        def fake_chop(g_, precision=0.1):
+            chop_calls.append(g_)
+            o = Geometry.__new__(Geometry)
+            o.geom, o.crs = c01.Shape("chopped"), g_.crs
+            return o
+
+        saved = (Geometry.segmented, Geometry._to_crs, geom_mod.chop_along_antimeridian, geom_mod.clip_lon180)
         Geometry.segmented, Geometry._to_crs = fake_segmented, fake__to_crs
+        geom_mod.chop_along_antimeridian, geom_mod.clip_lon180 = fake_chop, (lambda g_, tol=1e-4: g_)
     else:
         res_val = {"finite": 0.5, "inf": float("inf"), "none": None}[resmode]
     sm = c01.same(ts, tt)
     try:
         try:
-            out = g.to_crs(tt.crs, resolution=res_val)
+            out = g.to_crs(tt.crs, resolution=res_val, wrapdateline=wrap)
         except ValueError:
             prove("refused_only_without_crs", ts.is_none)
             return
@@ -363,13 +383,22 @@ def h_to_crs(resmode):
                 prove("vertex_count_kept", len(out.exterior.coords) == len(g.exterior.coords))
             return
         prove("projected_exactly_once_into_the_target", len(proj_calls) == 1 and proj_calls[0][1] is tt.crs)
-        if resmode == "finite":
-            prove("densified_before_projecting", seg_calls == [res_val] and proj_calls[0][0].geom.name == "segmented")
+        chopped = bool(chop_calls)
+        if chopped:
+            # the date-line branch (only for a geographic target): what is chopped is the geometry
+            # to be projected -- the densified one when a finite resolution was requested
+            prove("chopped_only_for_wrapdateline_into_a_geographic_crs", wrap and len(chop_calls) == 1)
+            prove("the_chopped_geometry_is_what_gets_projected", proj_calls[0][0].geom.name == "chopped")
+            operand = chop_calls[0]
         else:
-            prove("not_densified_without_finite_resolution", seg_calls == [] and proj_calls[0][0] is g)
+            operand = proj_calls[0][0]
+        if resmode == "finite":
+            prove("densified_before_projecting", seg_calls == [res_val] and operand.geom.name == "segmented")
+        else:
+            prove("not_densified_without_finite_resolution", seg_calls == [] and operand is g)
     finally:
         if not conc:
-            Geometry.segmented, Geometry._to_crs = saved
+            Geometry.segmented, Geometry._to_crs, geom_mod.chop_along_antimeridian, geom_mod.clip_lon180 = saved
 
 
 OBLIGATIONS = [
@@ -383,7 +412,7 @@ OBLIGATIONS = [
        functions=("odc.geo.geom.densify",), bounds="three symbolic vertices, each edge <= K*resolution", stubs=("LineString contract",), setup=setup, fresh_only=True, timeout_ms=60000),
     Ob("D3_segmented_dispatch", h_segmented_dispatch, fixed(), descr="segmented(): points cloned, collections recursed, every polygon ring and line densified with the requested resolution, geometry type preserved",
        functions=("odc.geo.geom.Geometry.segmented",), stubs=("structural geometry fakes", "densify recorder"), setup=setup),
-    Ob("D4_to_crs_guards", h_to_crs, fixed(dict(resmode="none"), dict(resmode="finite"), dict(resmode="inf")),
+    Ob("D4_to_crs_guards", h_to_crs, fixed(dict(resmode="none"), dict(resmode="finite"), dict(resmode="inf"), dict(resmode="finite", wrap=True), dict(resmode="none", wrap=True)),
        descr="to_crs: same CRS (any spelling) => the very same object; no CRS => ValueError; finite resolution => densified before projecting; result tagged with the target CRS",
        functions=("odc.geo.geom.Geometry.to_crs", "odc.geo.crs.norm_crs_or_error"), stubs=("abstract CRS tags", "segmented/_to_crs recorders"), setup=setup_tocrs),
 ]
